@@ -171,3 +171,16 @@ SPECS['C08'] = {
     'thorough': [J('c08', 'fast', srcs=TLSSRC, deadline=1500), J('c08', 'asan', srcs=TLSSRC, deadline=600, env={'VH_TIER': 'quick'})],
     'budget': {'quick': 170, 'thorough': 1700},
 }
+
+SPECS['C10'] = {
+    'level': 'fault_enumeration',
+    'technique': 'exhaustive single-fault enumeration on the real handshakes over vnet: every (record, payload offset, bit) flip of every handshake record plus per-record drop / duplicate / swap / truncate / inject faults (thorough: all pairs of record-level faults), one forked implementation run per fault',
+    'claim': 'For 3 protocols x {server-auth, mutual}: under every single-bit modification of any handshake record payload and every per-record drop, duplication, swap with the next record, truncation (1 byte / half / all but one) and injection (copy of first record, copy of itself, alert, empty handshake record, CCS), client and server never both complete and no completed party accepts application data afterwards; the honest run completes and exchanges data (non-vacuity).',
+    'trusted': 'vnet record-aware adversary; endpoints deterministic under scripted entropy/clock',
+    'rule': 'faults enumerated from the record log of the honest run of each of the 6 configurations (7-13 records, 1.2-2.5 KB payload => 9.5-20 k bit flips each, ~87 k in total) + 11 record-level faults per record; thorough adds ordered pairs (drop|dup|swap) x (any record-level fault). distinct = (configuration, fault); every fault is non-trivial (expected verdict: detected).',
+    'bound': {'quick': '1 fault', 'thorough': '1 fault + 2 record-level faults'},
+    'assumptions': ['record header bytes are covered under C06/C11', 'adversary without private keys'],
+    'quick': [J('c10', 'fast', srcs=TLSSRC)],
+    'thorough': [J('c10', 'fast', srcs=TLSSRC, deadline=1500)],
+    'budget': {'quick': 170, 'thorough': 1700},
+}
